@@ -305,7 +305,7 @@ class Families:
                 val = n.value
                 is_var = val in self.addvar_calls(val) or (isinstance(val.func, ast.Name) and val.func.id in lambdas)
                 if is_var:
-                    inf = self.info(val) if isinstance(val.func, ast.Attribute) else dict(lambdas[val.func.id], call=val)
+                    inf = self.info(val) if isinstance(val.func, ast.Attribute) else self._lambda_info(lambdas, val)
                     for t in n.targets:
                         if isinstance(t, ast.Name):
                             self.scalars[t.id] = inf
@@ -315,6 +315,24 @@ class Families:
         for n in walk_local(self.func):
             if isinstance(n, ast.Assign) and isinstance(n.targets[0], ast.Tuple) and isinstance(n.value, ast.Tuple):
                 pass
+
+    @staticmethod
+    def _lambda_info(lambdas, call):
+        """addVar wrapped in a local lambda: the name template is the call's first argument."""
+        inf = dict(lambdas[call.func.id], call=call)
+        if call.args:
+            a = call.args[0]
+            pre = ""
+            if isinstance(a, ast.JoinedStr):
+                for v in a.values:
+                    if isinstance(v, ast.Constant):
+                        pre += str(v.value)
+                    else:
+                        break
+            elif isinstance(a, ast.Constant):
+                pre = str(a.value)
+            inf["prefix"], inf["name"] = pre, a
+        return inf
 
     def is_container(self, name: str) -> bool:
         return name in self.containers
@@ -649,7 +667,12 @@ class Linearizer:
         nm = call_name(c)
         last = nm.split(".")[-1]
         if last in SUM_CALLS and c.args:
-            return self.sum_arg(c.args[0], at, c)
+            r = self.sum_arg(c.args[0], at, c)
+            if len(r.terms) == 1 and r.terms[0][1].kind == "atom" and getattr(r.terms[0][1], "tag", "") == "opaque-sum" \
+                    and not any(isinstance(x, ast.Name) and (self.fams.is_container(x.id) or self.fams.is_scalar(x.id))
+                                for x in ast.walk(c.args[0])):
+                return self.coef_atom(c)  # a sum of plain numbers (no model variable inside)
+            return r
         if last == "prod" and len(c.args) >= 1:
             return self.lin(c.args[0], at)
         if last == "abssum":
